@@ -53,10 +53,13 @@ type Contract struct {
 	Panics   []Clause // exceptional postconditions: condition (over old state) under which a panic is permitted
 	Modifies []Clause
 	ModAll   bool
+	AbstractFloats bool // float operations are uninterpreted functions (same symbols in code and spec)
 	StringsExact bool // model the contents of concatenated strings (quantified axioms)
 	Handler  bool // deferred recover handler: recover() yields an arbitrary value
 	RecoverBy string // callee key of the deferred recover handler: runtime panics after its Defer are converted to errors
 	FieldsOf []Clause // under modifies *: struct fields may change only at these objects (other objects of the type are preserved)
+	PanicEnsures []Clause // must hold whenever a panic propagates out of the function (after its deferred calls ran)
+	OnPanic  []Clause // handler contracts: what the handler guarantees when it runs during a panic
 	MapWrites string // predicate every written map must satisfy (write confinement for maps)
 	AtEntry  []GhostStmt // ghost statements run at function entry
 	Preserves []string // heap variables whose pre-existing objects stay unchanged even under modifies *
@@ -452,12 +455,24 @@ func (sp *Specs) loadSpecFile(path, pkgPath string) error {
 			cur.ParamNames = strings.Fields(strings.ReplaceAll(rest, ",", " "))
 		case "like":
 			cur.Like = rest
+		case "abstractfloats":
+			cur.AbstractFloats = true
 		case "stringsexact":
 			cur.StringsExact = true
 		case "handler":
 			cur.Handler = true
 		case "recoverby":
 			cur.RecoverBy = rest
+		case "panicensures", "onpanic":
+			c, err := parseClause(rest, lineNo)
+			if err != nil {
+				return fail(err)
+			}
+			if word == "onpanic" {
+				cur.OnPanic = append(cur.OnPanic, c)
+			} else {
+				cur.PanicEnsures = append(cur.PanicEnsures, c)
+			}
 		case "fieldsof":
 			c, err := parseClause(rest, lineNo)
 			if err != nil {
